@@ -425,9 +425,10 @@ func (st *rstate) loop(w *strings.Builder, n gen.For) (ctl, Status) {
 			return ctlNone, s
 		}
 		if n.Tablerow {
-			if c != ctlNone {
-				return ctlNone, Unsp // tablerow after break/continue: not stated
+			if c == ctlBreak {
+				return ctlNone, Unsp // tablerow after break: not stated
 			}
+			// continue skips to the next iteration; the item is still wrapped in its td
 			w.WriteString("</td>")
 			if cols > 0 && (i+1)%cols == 0 || i+1 == L {
 				w.WriteString("</tr>")
